@@ -85,7 +85,8 @@ impl Decimal {
     }
 
     pub(crate) fn to_vec(&self) -> AvroResult<Vec<u8>> {
-        self.to_sign_extended_bytes_with_len(self.len)
+        // A decimal created from zero bytes is the value 0, which needs one byte
+        self.to_sign_extended_bytes_with_len(self.len.max(1))
     }
 
     pub(crate) fn to_sign_extended_bytes_with_len(&self, len: usize) -> AvroResult<Vec<u8>> {
